@@ -900,4 +900,162 @@ theorem reset_refines {rb : RB} {a : AState} (wf : WF rb) (R : Refines rb a) :
     · show FramesRel (RB.reset rb) (RB.reset rb).depth [] []
       simp [FramesRel]
 
+/-! ## Single-cell operations: `put_char`, `linecell` -/
+
+theorem RowWF_congr' {n : Int} {row row' : Row} (h : RowWF n row)
+    (s : ∀ k, (row'.get k).state = (row.get k).state) (c : ∀ k, (row'.get k).cols = (row.get k).cols) : RowWF n row' := by
+  refine ⟨?_, ?_, ?_, ?_, ?_, ?_⟩
+  · intro k a b x; rw [c]; rw [s] at x; exact h.cont_lo k a b x
+  · intro k a b x; rw [c, s]; rw [s] at x; exact h.cont_start k a b x
+  · intro k a b x; rw [c, c]; rw [s] at x; exact h.cont_in k a b x
+  · intro k a b x; rw [c]; rw [s] at x; exact h.start_len k a b x
+  · intro k j a b x y z; rw [s, c]; rw [s] at x; rw [c] at z; exact h.start_run k j a b x y z
+  · intro k a b x; rw [c]; rw [s] at x; exact h.one k a b x
+
+/-- Everything a single-row change has to establish, packaged: the new buffer differs from `rb` only in row
+    `line`, which is well-formed, has the same mask depths, and the same content except at column `col`. -/
+theorem rowchange_spec {rb rb' : RB} (wf : WF rb) (line col : Int) (hl0 : 0 ≤ line) (hl1 : line < rb.lines)
+    (hc0 : 0 ≤ col) (hc1 : col < rb.cols) (x : Content)
+    (haux : rb'.aux = rb.aux) (hother : ∀ l, l ≠ line → rb'.cells l = rb.cells l)
+    (hwf : RowWF rb.cols (rb'.cells line))
+    (hmd : ∀ k, ((rb'.cells line).get k).maskdepth = ((rb.cells line).get k).maskdepth)
+    (hcont : ∀ k, 0 ≤ k → k < rb.cols → rowContent (rb'.cells line) k = if k = col then x else rowContent (rb.cells line) k)
+    (ha : rb'.aborted = rb.aborted) (hfo : rb'.fuelOut = rb.fuelOut) :
+    WF rb' ∧ (∀ L C, (rb'.cell L C).maskdepth = (rb.cell L C).maskdepth) ∧
+    (∀ L C, absContent rb' L C = if L = line ∧ C = col then x else absContent rb L C) := by
+  have hmd' : ∀ L C, (rb'.cell L C).maskdepth = (rb.cell L C).maskdepth := by
+    intro L C; unfold RB.cell
+    by_cases h : L = line
+    · rw [h]; exact hmd C
+    · rw [hother L h]
+  refine ⟨?_, hmd', ?_⟩
+  · apply wf.transfer haux _ hmd' ha hfo
+    intro l a b
+    by_cases h : l = line
+    · rw [h]; exact hwf
+    · rw [hother l h]; exact wf.rows l a b
+  · intro L C
+    have e1 : rb'.lines = rb.lines := congrArg Aux.lines haux
+    have e2 : rb'.cols = rb.cols := congrArg Aux.cols haux
+    rw [absContent_eq, absContent_eq, e1, e2]
+    by_cases hb : inBuf rb.lines rb.cols L C = true
+    · rw [if_pos hb, if_pos hb]
+      have hb' := (inBuf_iff _ _ _ _).1 hb
+      by_cases h : L = line
+      · rw [h, hcont C hb'.2.2.1 hb'.2.2.2]
+        by_cases hk : C = col
+        · rw [if_pos hk, if_pos ⟨rfl, hk⟩]
+        · rw [if_neg hk, if_neg (fun z => hk z.2)]
+      · rw [hother L h, if_neg (fun z => h z.1)]
+    · rw [if_neg hb, if_neg hb, if_neg]
+      intro z; apply hb; rw [inBuf_iff, z.1, z.2]; exact ⟨hl0, hl1, hc0, hc1⟩
+
+/-- `make_span` of one column followed by assignments to the returned cell. -/
+theorem cellOp_spec {rb : RB} (wf : WF rb) (line col : Int) (hl0 : 0 ≤ line) (hl1 : line < rb.lines)
+    (hc0 : 0 ≤ col) (hc1 : col < rb.cols) (hun : (rb.cell line col).maskdepth = -1)
+    (f : Cell → Cell) (hf1 : ∀ c, (f c).state ≠ .cont) (hf2 : ∀ c, c.cols = 1 → (f c).cols = 1)
+    (hf3 : ∀ c, (f c).maskdepth = c.maskdepth) :
+    WF ((makeSpan rb line col 1).updCell line col f) ∧
+    ((makeSpan rb line col 1).updCell line col f).aux = rb.aux ∧
+    (∀ L C, (((makeSpan rb line col 1).updCell line col f).cell L C).maskdepth = (rb.cell L C).maskdepth) ∧
+    (∀ L C, absContent ((makeSpan rb line col 1).updCell line col f) L C =
+      if L = line ∧ C = col then cellContent (f ((makeSpanRow rb.cols (rb.cells line) col 1).get col)) 0
+      else absContent rb L C) ∧
+    ((makeSpan rb line col 1).updCell line col f).cell line col = f ((makeSpanRow rb.cols (rb.cells line) col 1).get col) := by
+  let v := f ((makeSpanRow rb.cols (rb.cells line) col 1).get col)
+  have hrow : ((makeSpan rb line col 1).updCell line col f).cells line = spanRow rb.cols (rb.cells line) col 1 v := by
+    show (if line = line then _ else _) = _
+    rw [if_pos rfl]
+    show rowSet (if line = line then _ else _) _ _ = _
+    rw [if_pos rfl]
+    unfold spanRow RB.cell
+    show rowSet _ _ (f ((if line = line then _ else _ : Row).get _)) = _
+    rw [if_pos rfl]
+  have hother : ∀ l, l ≠ line → ((makeSpan rb line col 1).updCell line col f).cells l = rb.cells l := by
+    intro l hl
+    show (if l = line then _ else (if l = line then _ else _)) = _
+    rw [if_neg hl, if_neg hl]
+  have hrw := wf.rows line hl0 hl1
+  have hv1 : v.state ≠ .cont := hf1 _
+  have hhead : (makeSpanRow rb.cols (rb.cells line) col 1).get col =
+      spanHead ((shortenBefore (splitAfter rb.cols (rb.cells line) (col + 1)) col).get col) col 1 := by
+    rw [makeSpanRow_get _ _ _ _ _ (by omega), if_pos rfl]
+  have hvmd : v.maskdepth = -1 := by
+    show (f _).maskdepth = _
+    rw [hf3, hhead, spanHead_maskdepth]
+  have hv2 : v.cols = 1 := hf2 _ (by rw [hhead, spanHead_cols])
+  have R := rowchange_spec (rb' := (makeSpan rb line col 1).updCell line col f) wf line col hl0 hl1 hc0 hc1
+    (cellContent v 0) rfl hother
+    (by rw [hrow]; exact spanRow_wf v hrw hc0 (by omega) (by omega) hv1 hv2 (fun _ => rfl))
+    (by
+      intro k; rw [hrow]; unfold spanRow; rw [rowSet_get]
+      split
+      · rename_i x; rw [x, hvmd]; exact hun.symm
+      · rw [makeSpanRow_maskdepth _ _ _ _ _ (by omega)]
+        split
+        · rename_i x y; exact absurd (by omega) x
+        · rfl)
+    (by
+      intro k hk0 hk1
+      rw [hrow, spanRow_content v hrw hc0 (by omega) (by omega) hv1 k hk0 hk1]
+      by_cases hk : k = col
+      · rw [if_pos (by omega), if_pos hk, hk]; simp
+      · rw [if_neg (by omega), if_neg hk])
+    (by
+      show (rb.aborted || makeSpanAborts rb.cols (rb.cells line) col 1) = rb.aborted
+      rw [makeSpanAborts_false hrw hc0 (by omega) (by omega), Bool.or_false])
+    rfl
+  refine ⟨R.1, rfl, R.2.1, R.2.2, ?_⟩
+  unfold RB.cell; rw [hrow]; unfold spanRow; simp only [rowSet_get, if_true]; rfl
+
+theorem updCell_cell (rb : RB) (l c : Int) (g : Cell → Cell) : (rb.updCell l c g).cell l c = g (rb.cell l c) := by
+  unfold RB.updCell RB.setRow RB.cell; simp
+
+/-- Changing attributes (not state, columns or mask depth) of a one-column start cell. -/
+theorem updAttr_spec {rb : RB} (wf : WF rb) (line col : Int) (hl0 : 0 ≤ line) (hl1 : line < rb.lines)
+    (hc0 : 0 ≤ col) (hc1 : col < rb.cols) (hst : (rb.cell line col).state ≠ .cont) (hone : (rb.cell line col).cols = 1)
+    (g : Cell → Cell) (hg1 : ∀ c, (g c).state = c.state) (hg2 : ∀ c, (g c).cols = c.cols)
+    (hg3 : ∀ c, (g c).maskdepth = c.maskdepth) :
+    WF (rb.updCell line col g) ∧ (rb.updCell line col g).aux = rb.aux ∧
+    (∀ L C, ((rb.updCell line col g).cell L C).maskdepth = (rb.cell L C).maskdepth) ∧
+    (∀ L C, absContent (rb.updCell line col g) L C =
+      if L = line ∧ C = col then cellContent (g (rb.cell line col)) 0 else absContent rb L C) := by
+  have hrow : (rb.updCell line col g).cells line = rowSet (rb.cells line) col (g (rb.cell line col)) := by
+    show (if line = line then _ else _) = _; rw [if_pos rfl]
+  have hother : ∀ l, l ≠ line → (rb.updCell line col g).cells l = rb.cells l := by
+    intro l hl; show (if l = line then _ else _) = _; rw [if_neg hl]
+  have hrw := wf.rows line hl0 hl1
+  unfold RB.cell at hst hone
+  have R := rowchange_spec (rb' := rb.updCell line col g) wf line col hl0 hl1 hc0 hc1
+    (cellContent (g (rb.cell line col)) 0) rfl hother
+    (by
+      rw [hrow]
+      refine RowWF_congr' hrw (fun k => ?_) (fun k => ?_)
+      · rw [rowSet_get]; split
+        · rename_i x; rw [x, hg1]; rfl
+        · rfl
+      · rw [rowSet_get]; split
+        · rename_i x; rw [x, hg2]; rfl
+        · rfl)
+    (by
+      intro k; rw [hrow, rowSet_get]; split
+      · rename_i x; rw [x, hg3]; rfl
+      · rfl)
+    (by
+      intro k hk0 hk1
+      rw [hrow]
+      unfold rowContent
+      by_cases hk : k = col
+      · rw [if_pos hk, rowSet_get, if_pos hk, if_neg (by rw [hg1]; exact hst)]
+      · rw [if_neg hk, rowSet_get, if_neg hk]
+        by_cases hkc : ((rb.cells line).get k).state = .cont
+        · rw [if_pos hkc, if_pos hkc, rowSet_get, if_neg]
+          intro x
+          have a := hrw.cont_lo k hk0 hk1 hkc
+          have b := hrw.cont_in k hk0 hk1 hkc
+          rw [x] at a b; rw [hone] at b; omega
+        · rw [if_neg hkc, if_neg hkc])
+    rfl rfl
+  exact ⟨R.1, rfl, R.2.1, R.2.2⟩
+
 end Tickit.RB
